@@ -57,8 +57,10 @@ def _mk_solver():
 class Ctx:
     cur = None
 
-    def __init__(self, prefix=(), base=(), epoch=0):
+    def __init__(self, prefix=(), base=(), epoch=0, base_key=None):
         self.epoch = epoch
+        self.base_key = base_key
+        self.decided = {}
         self.prefix = list(prefix)
         self.pos = 0
         self.trace = []
@@ -117,6 +119,19 @@ class Ctx:
             return False
         if margin is not None:
             self.margins.append(margin)
+        cid = cond.get_id()
+        if cid in self.decided:          # same condition again on this path: already part of the path condition
+            return self.decided[cid]
+        if self.base_key is not None:    # decided by the work item's assumptions alone (shared across runs)
+            bk = (self.base_key, cid)
+            bd = _BASE_DECIDED.get(bk, 0)
+            if bd == 0:
+                bd = _base_decide(self, cond)
+                _BASE_DECIDED[bk] = bd
+                _BASE_KEEP.append(cond)
+            if bd is not None:
+                self.decided[cid] = bd
+                return bd
         if self.pos < len(self.prefix):
             d = self.prefix[self.pos]
         else:
@@ -135,6 +150,7 @@ class Ctx:
         self.pos += 1
         self.trace.append(d)
         self.pc.append(cond if d else z3.Not(cond))
+        self.decided[cid] = d
         STATS.decisions += 1
         return d
 
@@ -144,6 +160,42 @@ class Ctx:
         if z3.is_true(cond):
             return
         self.pc.append(cond)
+
+
+_BASE_DECIDED = {}
+_BASE_KEEP = []        # keeps the z3 terms alive so that their ids are not reused
+_BASE_SOLVERS = {}
+
+
+def _base_decide(c, cond):
+    """True / False if the base assumptions alone decide cond, else None"""
+    import time
+    s = _BASE_SOLVERS.get(c.base_key)
+    if s is None:
+        s = _mk_solver()
+        for a in c.pc[:c.nbase]:
+            s.add(a)
+        _BASE_SOLVERS.clear()
+        _BASE_SOLVERS[c.base_key] = s
+    t = time.time()
+    out = None
+    s.push()
+    s.add(z3.Not(cond))
+    r = s.check()
+    s.pop()
+    STATS.solver_calls += 1
+    if r == z3.unsat:
+        out = True
+    else:
+        s.push()
+        s.add(cond)
+        r = s.check()
+        s.pop()
+        STATS.solver_calls += 1
+        if r == z3.unsat:
+            out = False
+    STATS.solver_s += time.time() - t
+    return out
 
 
 class Path:
@@ -157,7 +209,7 @@ class Path:
         return "Path(%s, %r, |pc|=%d)" % (self.kind, self.value, len(self.pc))
 
 
-def explore(fn, base=(), maxpaths=20000):
+def explore(fn, base=(), maxpaths=20000, base_key=None):
     """Enumerate every feasible path of fn() (re-execution DFS). Returns list of Path.
     kind is 'ret' or 'exc'. Exceeding maxpaths is a hard error (Unsupported), never a truncation."""
     work = [[]]
@@ -169,7 +221,7 @@ def explore(fn, base=(), maxpaths=20000):
     try:
         while work:
             sched = work.pop()
-            c = Ctx(sched, base, epoch)
+            c = Ctx(sched, base, epoch, base_key)
             Ctx.cur = c
             try:
                 r = ("ret", fn())
@@ -487,7 +539,7 @@ def _ival(v):
 
 
 class SymInt:
-    __slots__ = ("bits", "_it", "lo", "hi")
+    __slots__ = ("bits", "_it", "lo", "hi", "_eqc", "tagchar")
 
     def __init__(self, bits=None, it=None, lo=None, hi=None):
         if bits is not None:
@@ -696,6 +748,18 @@ class SymInt:
             return None
         if isinstance(o, bool):
             o = int(o)
+        if isinstance(o, int):
+            try:
+                c = self._eqc
+            except AttributeError:
+                c = self._eqc = {}
+            r = c.get(o)
+            if r is None:
+                r = c[o] = self._eqbits1(o)
+            return r
+        return self._eqbits1(o)
+
+    def _eqbits1(self, o):
         if isinstance(o, int):
             if o < 0 or o.bit_length() > len(self.bits):
                 return z3.BoolVal(False)
@@ -1190,6 +1254,20 @@ def char_eq(a, b):
         return a.is_char(b)
     if isinstance(a, BitChar) and isinstance(b, BitChar):
         return z3.Not(bxor(a.b, b.b).true())
+    if isinstance(a, HexChar) and isinstance(b, HexChar):
+        cs = []
+        for x, y in zip(a.nib, b.nib):
+            d = bxor(x, y)
+            if not d.atoms:
+                if d.c:
+                    return z3.BoolVal(False)
+                continue
+            cs.append(z3.Not(d.true()))
+        if not a.upper.eq(b.upper):
+            # letters (value >= 10) must also agree in case
+            letter = z3.And(a.nib[0].true(), z3.Or(a.nib[1].true(), a.nib[2].true()))
+            cs.append(z3.Or(z3.Not(letter), a.upper == b.upper))
+        return z3.And(cs) if cs else z3.BoolVal(True)
     alpha = set(a.alphabet()) & set(b.alphabet())
     return z3.Or([z3.And(a.is_char(ch), b.is_char(ch)) for ch in sorted(alpha)]) if alpha else z3.BoolVal(False)
 
@@ -1499,6 +1577,9 @@ def s_len(x):
 
 def s_chr(x):
     if isinstance(x, SymInt):
+        tc = getattr(x, "tagchar", None)
+        if tc is not None:          # a byte built by a harness as the code of a symbolic character
+            return SymStr([tc])
         return builtins.chr(concretize(x))
     return builtins.chr(x)
 
